@@ -903,7 +903,9 @@ class RpcServer:
                     self._methods.get(rejected_name.decode("utf-8", "replace")) if rejected_name is not None else None
                 )
                 if rejected_info is not None:
-                    self._discard_rejected_stream_input(transport, rejected_info)
+                    self._discard_rejected_stream_input(
+                        transport, rejected_info, shm=static_shm or self._refused_request_shm(shm_cache)
+                    )
                 return
 
             # __transport_options__ — framework transport-capability handshake,
@@ -958,7 +960,9 @@ class RpcServer:
                 except ProtocolVersionError as exc:
                     err_schema = info.result_schema if info.method_type == MethodType.UNARY else _EMPTY_SCHEMA
                     _write_error_stream(transport.writer, err_schema, exc, server_id=self._server_id)
-                    self._discard_rejected_stream_input(transport, info, shm=static_shm or cached_shm)
+                    self._discard_rejected_stream_input(
+                        transport, info, shm=static_shm or self._refused_request_shm(shm_cache)
+                    )
                     return
 
             # Request validation. Both steps are answered with a typed error
@@ -982,7 +986,9 @@ class RpcServer:
             except Exception as exc:
                 err_schema = info.result_schema if info.method_type == MethodType.UNARY else _EMPTY_SCHEMA
                 _write_error_stream(transport.writer, err_schema, exc, server_id=self._server_id)
-                self._discard_rejected_stream_input(transport, info, shm=static_shm or cached_shm)
+                self._discard_rejected_stream_input(
+                    transport, info, shm=static_shm or self._refused_request_shm(shm_cache)
+                )
                 return
 
             # Determine the SHM segment for this call's data plane (resolving
@@ -1025,6 +1031,19 @@ class RpcServer:
             _current_request_metadata.reset(md_token)
             _current_call_stats.reset(stats_token)
             _current_request_id.reset(token)
+
+    def _refused_request_shm(self, shm_cache: _ConnectionShm | None) -> ShmSegment | None:
+        """Return the client's segment for a request refused before dispatch.
+
+        The connection cache is normally refreshed on the way to dispatch; a
+        refused request never gets there, so a segment it is the first to
+        advertise would be unknown and the input regions its client still sends
+        could not be released.
+        """
+        if shm_cache is None:
+            return None
+        shm_cache.refresh(_current_request_metadata.get(), self._transport_kind)
+        return shm_cache.segment
 
     def _discard_rejected_stream_input(
         self, transport: RpcTransport, info: RpcMethodInfo, *, shm: ShmSegment | None = None
